@@ -164,22 +164,22 @@ func vMkOperand[T vScalar](name string, shape []int, layout string) (*Dense, []T
 		// scalar tensors have a single layout
 		b := make([]T, 1)
 		b[0] = want[0]
-		return New(WithShape(), WithBacking(b)), want
+		return New(append([]ConsOpt{WithShape(), WithBacking(b)}, vEngOpts(vEngine())...)...), want
 	}
 	switch layout {
 	case "C":
 		b := make([]T, n)
 		copy(b, want)
-		return New(WithShape(shape...), WithBacking(b)), want
+		return New(append([]ConsOpt{WithShape(shape...), WithBacking(b)}, vEngOpts(vEngine())...)...), want
 	case "F":
 		b := make([]T, n)
 		vForCoords(shape, func(c []int) { b[vColRank(shape, c)] = want[vRowRank(shape, c)] })
-		return New(WithShape(shape...), WithBacking(b), AsFortran(nil)), want
+		return New(append([]ConsOpt{WithShape(shape...), WithBacking(b), AsFortran(nil)}, vEngOpts(vEngine())...)...), want
 	case "T":
 		ps := vReverseInts(shape)
 		b := make([]T, n)
 		vForCoords(shape, func(c []int) { b[vRowRank(ps, vReverseInts(c))] = want[vRowRank(shape, c)] })
-		t := New(WithShape(ps...), WithBacking(b))
+		t := New(append([]ConsOpt{WithShape(ps...), WithBacking(b)}, vEngOpts(vEngine())...)...)
 		if rank >= 2 {
 			if err := t.T(); err != nil {
 				panic("vMkOperand: T failed")
@@ -209,7 +209,7 @@ func vMkOperand[T vScalar](name string, shape []int, layout string) (*Dense, []T
 			}
 			b[vRowRank(ps, pc)] = want[vRowRank(shape, c)]
 		})
-		p := New(WithShape(ps...), WithBacking(b))
+		p := New(append([]ConsOpt{WithShape(ps...), WithBacking(b)}, vEngOpts(vEngine())...)...)
 		sls := make([]Slice, rank)
 		sls[last] = sl
 		v, err := p.Slice(sls...)
